@@ -1,6 +1,7 @@
 package main
 
 import (
+	"io"
 	"bytes"
 	"encoding/json"
 	"fmt"
@@ -59,7 +60,13 @@ func compileRaw(pc *progCase) (cp *compiledProg, bad V) {
 	}
 	addSpecialModules(mm, pc)
 	fs := parser.NewFileSet()
-	sf := fs.AddFile("(main)", -1, len(pc.Src))
+	// every other program gets its file at an explicit base that leaves a gap in front of it (an embedder with a file set of its
+	// own): locations are relative to the file, wherever the file sits in the set - before and after Encode/Decode
+	base := -1
+	if len(pc.Src)%2 == 1 {
+		base = 1000 + len(pc.Src)%13
+	}
+	sf := fs.AddFile("(main)", base, len(pc.Src))
 	p := parser.NewParser(sf, []byte(pc.Src), nil)
 	file, err := p.ParseFile()
 	if err != nil {
@@ -268,7 +275,8 @@ func pipelinesHandle(raw []byte) map[string]interface{} {
 	}
 	// the same encoding read a second time with the same module map: an independent program again
 	dec2 := &tengo.Bytecode{}
-	if err := dec2.Decode(bytes.NewReader(buf.Bytes()), cpC.mods); err != nil {
+	// (through a reader that offers nothing but Read: a file, a network or decompression stream)
+	if err := dec2.Decode(struct{ io.Reader }{bytes.NewReader(buf.Bytes())}, cpC.mods); err != nil {
 		res["C2"] = V{"k": "decode_error", "msg": err.Error()}
 		return res
 	}
